@@ -13,7 +13,7 @@ import time
 VERIF = os.path.dirname(os.path.dirname(os.path.abspath(__file__)))
 REPO = os.environ.get("VERIF_REPO", "/repo")
 WORK = os.environ.get("VERIF_WORK", os.path.join(VERIF, ".work"))
-EVIDENCE_DIR = os.path.join(VERIF, "evidence")
+EVIDENCE_DIR = os.environ.get("VERIF_EVIDENCE", os.path.join(VERIF, "evidence"))
 KNOWN_FINDINGS = os.path.join(VERIF, "known_findings.json")
 
 OFFLINE_ENV = {"CARGO_NET_OFFLINE": "true"}
